@@ -4,6 +4,8 @@ import (
 	"context"
 	"math"
 	"sync"
+
+	"github.com/mithrandie/csvq/lib/vhook"
 )
 
 var (
@@ -155,9 +157,11 @@ func (m *GoroutineTaskManager) run(ctx context.Context, fn func(int) error, thId
 		}
 	}()
 
+	vhook.Yield("gm.run.start", thIdx)
 	start, end := m.RecordRange(thIdx)
 
 	for i := start; i < end; i++ {
+		vhook.Yield("gm.run.row", thIdx)
 		if m.HasError() {
 			break
 		}
